@@ -541,7 +541,10 @@ class Chopper:
         # That extra rotation is the last rotation of the previous cycle,
         # so it is dropped when repeating the cycle.
         frequency = abs(disk_chopper.frequency)
-        ratio = (pulse_frequency.to(unit=frequency.unit) / frequency).value
+        ratio = (
+            pulse_frequency.to(unit=frequency.unit, dtype='float64', copy=False)
+            / frequency
+        ).value
         pulses_per_cycle = max(round(ratio), 1)
         n_cycles = -(-npulses // pulses_per_cycle)
         cycle = (pulses_per_cycle / pulse_frequency).to(unit=topen.unit)
